@@ -49,6 +49,15 @@ def update_ff( blk ):
   NamedObject._elaborate_stack[-1]._update_ff( blk )
   return blk
 
+_aug_op_strs = { ast.Add: '+=', ast.Sub: '-=', ast.Mult: '*=', ast.Div: '/=',
+                 ast.FloorDiv: '//=', ast.Mod: '%=', ast.Pow: '**=',
+                 ast.RShift: '>>=', ast.BitOr: '|=', ast.BitAnd: '&=',
+                 ast.BitXor: '^=' }
+
+def _aug_op_str( op ):
+  """ op is the ast operator node of an augmented assignment """
+  return _aug_op_strs.get( type(op), type(op).__name__ + '=' )
+
 class ComponentLevel2( ComponentLevel1 ):
 
   #-----------------------------------------------------------------------
@@ -247,7 +256,7 @@ class ComponentLevel2( ComponentLevel1 ):
                 raise UpdateFFBlockWriteError( s, func, '@=', nodelist[0].lineno,
                   "Fix the '@=' assignment with '<<='")
 
-              raise UpdateFFBlockWriteError( s, func, op+'=', nodelist[0].lineno,
+              raise UpdateFFBlockWriteError( s, func, _aug_op_str( op ), nodelist[0].lineno,
                 "Fix the signal assignment with '<<='")
 
 
@@ -270,7 +279,7 @@ class ComponentLevel2( ComponentLevel1 ):
               if isinstance( op, ast.LShift ):
                 raise UpdateBlockWriteError( s, func, '<<=', nodelist[0].lineno,
                   "Fix the '<<=' assignment with '@='")
-              raise UpdateBlockWriteError( s, func, op+'=', nodelist[0].lineno,
+              raise UpdateBlockWriteError( s, func, _aug_op_str( op ), nodelist[0].lineno,
                 "Fix the signal assignment with '@='")
 
         # This is a function call without "s." prefix, check func list
